@@ -41,6 +41,104 @@ pub fn body_candidates(plan: &Plan) -> Vec<Plan> {
                 push(&|cc| cc.stdin = StreamCfg::Inherit);
             }
         }
+        Body::Status(c) => {
+            use crate::fam_status::*;
+            let mut push = |f: &dyn Fn(&mut StatusPlan)| {
+                let mut p = plan.clone();
+                if let Body::Status(ref mut cc) = p.body {
+                    f(cc);
+                }
+                out.push(p);
+            };
+            for i in 0..c.ops.len() {
+                push(&move |cc| {
+                    cc.ops.remove(i);
+                });
+                match c.ops[i] {
+                    StatusOp::WaitTimeout(d) if d > 0 => {
+                        push(&move |cc| cc.ops[i] = StatusOp::WaitTimeout(d / 2));
+                        push(&move |cc| cc.ops[i] = StatusOp::WaitTimeout(0));
+                    }
+                    StatusOp::Advance(d) if d > 0 => {
+                        push(&move |cc| cc.ops[i] = StatusOp::Advance(d / 2));
+                    }
+                    _ => {}
+                }
+            }
+            if c.detached {
+                push(&|cc| cc.detached = false);
+            }
+        }
+        Body::Spawn(c) => {
+            use crate::fam_spawn::*;
+            let mut push = |f: &dyn Fn(&mut SpawnPlan)| {
+                let mut p = plan.clone();
+                if let Body::Spawn(ref mut cc) = p.body {
+                    f(cc);
+                }
+                out.push(p);
+            };
+            for i in 0..c.spawns.len() {
+                if c.spawns.len() > 1 {
+                    push(&move |cc| {
+                        cc.spawns.remove(i);
+                    });
+                }
+                let sp = &c.spawns[i];
+                if sp.argv.len() > 1 {
+                    push(&move |cc| cc.spawns[i].argv.truncate(1));
+                    push(&move |cc| {
+                        cc.spawns[i].argv.pop();
+                    });
+                }
+                if sp.env.is_some() {
+                    push(&move |cc| cc.spawns[i].env = None);
+                    if sp.env.as_ref().unwrap().len() > 1 {
+                        push(&move |cc| {
+                            cc.spawns[i].env.as_mut().unwrap().pop();
+                        });
+                        push(&move |cc| {
+                            cc.spawns[i].env.as_mut().unwrap().remove(0);
+                        });
+                    }
+                }
+                if sp.cwd.is_some() {
+                    push(&move |cc| cc.spawns[i].cwd = None);
+                }
+                if sp.setuid.is_some() {
+                    push(&move |cc| cc.spawns[i].setuid = None);
+                }
+                if sp.setgid.is_some() {
+                    push(&move |cc| cc.spawns[i].setgid = None);
+                }
+                if sp.setpgid {
+                    push(&move |cc| cc.spawns[i].setpgid = false);
+                }
+                if sp.detached {
+                    push(&move |cc| cc.spawns[i].detached = false);
+                }
+                if sp.keep {
+                    push(&move |cc| cc.spawns[i].keep = false);
+                }
+                if sp.via_exec {
+                    push(&move |cc| cc.spawns[i].via_exec = false);
+                }
+                if sp.stdin != RedirSpec::None {
+                    push(&move |cc| cc.spawns[i].stdin = RedirSpec::None);
+                }
+                if sp.stdout != RedirSpec::None {
+                    push(&move |cc| cc.spawns[i].stdout = RedirSpec::None);
+                }
+                if sp.stderr != RedirSpec::None {
+                    push(&move |cc| cc.spawns[i].stderr = RedirSpec::None);
+                }
+                for (j, a) in sp.argv.iter().enumerate() {
+                    if j > 0 && a.len() > 1 {
+                        push(&move |cc| cc.spawns[i].argv[j].truncate(1));
+                    }
+                }
+            }
+        }
     }
     out
 }
